@@ -21,6 +21,31 @@ def subsets_of_size(lo, hi, sizes):
 MSG2 = "{<<>>, <<104,105>>}"
 LONGMSG = "{[k \\in 1..70 |-> k]}"
 
+# ------------------------------------------------------------------------ the life of a key (composition)
+LIFE_INV = ["InvLinked", "InvShares", "InvNeverFails", "InvVerify", "Emit"]
+
+
+def life_slices(tier, ops=None, name="L_life"):
+    """Compositions of the sub-protocols on one key (spec/props/Life.tla)."""
+    th = tier == "thorough"
+    seqs = ops or [
+        ["sign", "refresh_dealer", "sign", "repair", "sign"],
+        ["rrsign", "refresh_dkg", "rrsign", "reload", "sign"],
+        ["refresh_dealer_drop", "sign", "refresh_dkg", "repair", "rrsign"],
+        ["repair", "refresh_dkg", "refresh_dealer", "reload", "sign"],
+        ["reload", "refresh_dkg", "refresh_dealer_drop", "sign"],
+    ]
+    if th and ops is None:
+        import itertools
+        alls = ["sign", "rrsign", "refresh_dealer", "refresh_dkg", "refresh_dealer_drop", "repair", "reload"]
+        seqs = [list(p) + ["sign"] for p in itertools.permutations(alls, 3)][:120]
+    opseqs = "{" + ", ".join("<<" + ",".join('"%s"' % o for o in s) + ">>" for s in seqs) + "}"
+    return [dict(name=name, module="Life", invariants=LIFE_INV, timeout=3000, consts=consts(
+        11, Shapes="{<<4,2>>, <<4,3>>}" if th else "{<<4,3>>}", IdSets="{{1,2,3,4}, {2,5,7,10}}" if th else "{{2,5,7,10}}",
+        Inits='{"dealer","dkg"}', OpSeqs=opseqs, Vals="{3,7}" if th else "{3}", RandChoices="{1}", Msg="<<104,105>>",
+        DomH3="{2,5}", DomH1="{5}", DomH2="{3}", DomHDKG="{4}", DomHR="{6}", EMIT="TRUE"))]
+
+
 # ------------------------------------------------------------------------ C01
 C01_INV = ["InvHonestOk", "InvSchnorr", "InvKeys", "Emit"]
 
@@ -48,6 +73,7 @@ def c01_slices(tier):
         11, Shapes="{<<4,4>>, <<5,4>>}", IdSets="{{1,2,3,4}, {2,5,7,10}, {1,2,3,4,5}, {1,3,6,8,10}}",
         KeyChoices="{7}", CoeffChoices="{3,0}" if th else "{3}", RandChoices="{1}", Msgs=LONGMSG, MaxExtra="1",
         DomH3="{4,9}", DomH1="{3,8}", DomH2="{5}", EMIT="TRUE")))
+    sl += life_slices(tier)
     if th:
         sl.append(dict(name="E_q11_values", module="C01", invariants=C01_INV, timeout=3000, consts=consts(
             11, Shapes="{<<3,2>>, <<3,3>>}", IdSets="{{1,2,3}, {4,9,10}}", KeyChoices="1..10", CoeffChoices=ZQ(11),
@@ -320,6 +346,9 @@ def c10_slices(tier):
         11, Shapes="{<<4,3>>}", IdSets="{{1,2,3,4}, {2,5,7,10}}", KeyChoices="{7}", CoeffChoices="{3}",
         Procs='{"dealer","dkg"}', Scenarios='{"ok","onelen"}', RCoeffChoices="{2}", Rounds="2", MaxExtra="1",
         **dict(base, DomH3="{4}", DomH1="{3}"))))
+    sl += life_slices(tier, ops=None if th else [["refresh_dealer", "repair", "refresh_dkg", "sign"],
+                                                 ["refresh_dkg", "refresh_dealer_drop", "rrsign"],
+                                                 ["refresh_dealer_drop", "refresh_dealer_drop", "sign", "refresh_dkg", "sign"]])
     return sl
 
 
@@ -349,6 +378,8 @@ def c11_slices(tier):
         11, Shapes="{<<5,3>>, <<5,4>>}" if th else "{<<5,3>>}", IdSets="{{1,2,3,4,5}, {1,3,6,8,10}}", KeyChoices="{7}",
         CoeffChoices="{3}", DeltaChoices="{4}", NewIds="{9}", Scenarios='{"ok","bad"}', MaxExtraH="2",
         **dict(base, DomH3="{4}", DomH1="{3}"))))
+    sl += life_slices(tier, ops=None if th else [["refresh_dealer", "repair", "sign"], ["refresh_dkg", "repair", "rrsign"],
+                                                 ["repair", "repair", "refresh_dkg", "repair", "sign"]])
     return sl
 
 
@@ -417,6 +448,7 @@ def c17_slices(tier):
         11, Shapes="{<<4,3>>}", IdSets="{{1,2,3,4}, {2,5,7,10}}", MaxExtra="1", SeedChoices="{9}",
         Faults='{"none","seed","comm","share"}', FixedAlphas="{1}", DomHR="{6}",
         **dict(base, DomH3="{4}", DomH1="{3}", DomH2="{5}", KeyChoices="{7}", CoeffChoices="{3}"))))
+    sl += life_slices(tier, ops=None if th else [["rrsign", "refresh_dkg", "rrsign"], ["refresh_dealer", "rrsign", "repair", "rrsign"]])
     return sl
 
 
